@@ -18,6 +18,7 @@ RULE = ('random histories of 2-5 try blocks per run (undo/stop, inside loops, le
         'model needed >= 1 backtrack and executed >= 2 try blocks, or a preempt was forced, or a ?? left side was '
         'skipped; distinct by hash of (source, args)')
 ASSUMPTIONS = common.ISA_ASSUMPTIONS
+REQUIRED_HIDC_FUNCTIONS = ['codegen/generator:CodeGen.gen_block', 'codegen/generator:CodeGen.truth_is_defeat']     # M-COV: deciding code never entered => inconclusive
 MIN_NONTRIVIAL = {'quick': 100, 'thorough': 1000}
 MAX_STEPS = 600_000
 
